@@ -122,6 +122,32 @@ fn case_grammar(k: usize, field: &str, acc: &mut Acc) {
                 let cls = if field.contains('7') && k == 4 { "weekday-7" } else if field.contains('/') { "step" } else if field.contains('-') { "range" } else if field.contains(',') { "list" } else { "single" };
                 acc.violation("CronSchedule iterator", &format!("denoted-set-{}-{}", fname, cls), case(), format!("{:?}", want[k]), got.show());
             }
+            // the day-of-week field once more with every other field free and the iterator consumed
+            // through nth() (which skip and step_by are built on): 14 jumps of 1 000 matching minutes
+            if k == 4 {
+                acc.transitions += 14;
+                let via_nth = match real_parse(&format!("* * * * {}", field)) {
+                    Out::Val(Ok(mut it)) => {
+                        pin_clock(unix_of(2022, 1, 1, 23, 59, 30));
+                        call(move || {
+                            let mut set = BTreeSet::new();
+                            for _ in 0..14 {
+                                match it.nth(1_000) {
+                                    Some(x) => {
+                                        set.insert(cal::weekday(x.timestamp().div_euclid(86_400) + cal::DAYS_TO_1970) as u8);
+                                    }
+                                    None => break,
+                                }
+                            }
+                            set
+                        })
+                    }
+                    other => Out::Err(format!("{:?}", other.show())),
+                };
+                if via_nth != Out::Val(want[k].clone()) {
+                    acc.violation("CronSchedule iterator", "denoted-set-through-nth-day-of-week", case(), format!("{:?}", want[k]), via_nth.show());
+                }
+            }
             let moved = observe_field_moving(&s, k);
             acc.transitions += want[k].len() as u64 + 1;
             if moved != Out::Val(want[k].clone()) {
